@@ -7,7 +7,7 @@ PROPERTY = "C09"
 LEVEL = "exploration"
 RULE = (
     "cases = (TimeoutExecutor over a manual base, optionally with a blocking throttle in between so that the delegate's submit() "
-    "itself takes virtual time, or f_timeout over recording source futures through the shared executor; 1-6 futures with default and "
+    "itself takes virtual time, or over a retry layer on a 2-worker thread pool whose attempts take virtual time and fail (so a future alternates between running and pending-in-back-off), or f_timeout over recording source futures through the shared executor; 1-6 futures with default and "
     "per-call timeouts from {0.25..8 s} submitted at generated virtual times from 1-3 threads; a completer finishing some before / at / "
     "after their deadlines, some never; user cancels; tape; exact clock). Enumerated: catalogue programs (shorter timeout arriving "
     "while the worker sleeps on a longer one, completion / user cancel || partition, concurrent first f_timeout calls) with every "
@@ -29,8 +29,13 @@ def stack(default, throttled=None):
     return ["build", "ex", {"base": {"kind": "manual"}, "layers": layers}]
 
 
-def sub(name, timeout=None):
-    d = {"script": [["tag"]]}
+def retry_stack(default, backoff):
+    return ["build", "ex", {"base": {"kind": "pool", "workers": 2}, "layers": [
+        {"kind": "retry", "policy": {"type": "exc", "max_attempts": 4, "sleep": backoff}}, {"kind": "timeout", "t": default, "tap": True}]}]
+
+
+def sub(name, timeout=None, script=None):
+    d = {"script": script or [["tag"]]}
     if timeout is not None:
         d["timeout"] = timeout
     return ["submit", "ex", name, d]
@@ -63,6 +68,15 @@ def catalog():
         # (no deadline falls inside the 0.3 .. 3.3 s during which the single timeout thread sits in the user's slow cancel function)
         "threads": [[sub("f0"), sub("f1", 4.0), ["sleep", 0.1], ["run", "ex", 0]]],
         "settle": 9.0, "final": [["state", "f0"], ["state", "f1"]]}}
+    # a future that is running() when the worker last looked, and later is pending again (retry back-off) at its deadline
+    out["O6/running-then-backoff-at-deadline"] = {"default": 1.0, "prog": {
+        "setup": [retry_stack(1.0, 20.0)],
+        "threads": [[sub("f0", None, [["vsleep", 0.4, ["raise", "E0"]], ["tag"]]), ["sleep", 0.2], sub("f1")]],
+        "settle": 4.0, "final": [["state", "f0"], ["state", "f1"]]}}
+    out["O7/backoff-then-running-at-deadline"] = {"default": 1.0, "prog": {
+        "setup": [retry_stack(1.0, 0.5)],
+        "threads": [[sub("f0", None, [["raise", "E0"], ["vsleep", 2.0, ["tag"]]]), ["sleep", 0.25], sub("f1", 0.5, [["vsleep", 0.1, ["raise", "E1"]], ["tag"]])]],
+        "settle": 5.0, "final": [["state", "f0"], ["state", "f1"]]}}
     out["F1/f_timeout-concurrent-first"] = {"ft": True, "prog": {
         "setup": [],
         "threads": [[["expr", "f0", ["f_timeout", ["src", "a0"], 2.0]]], [["expr", "f1", ["f_timeout", ["src", "a1"], 1.0]]],
@@ -93,12 +107,12 @@ def evaluate(case):
     for o in ops:
         if o["op"][0] == "submit" and o["result"] == ["ok", "submitted"]:
             subs.append({"name": o["op"][2], "timeout": o["op"][3].get("timeout", default), "call_t": o["call_t"], "ret_t": o["ret_t"],
-                         "ret_seq": o["ret_seq"], "target": None, "fn": o["op"][2] + ".fn"})
+                         "ret_seq": o["ret_seq"], "call_seq": o["call_seq"], "target": None, "fn": o["op"][2] + ".fn"})
         elif o["op"][0] == "submit" and o["result"][0] == "exc":
             bad("submit-raised:%s" % o["result"][1], result=o["result"])
         elif o["op"][0] == "expr" and o["op"][2][0] == "f_timeout" and o["result"][0] == "ok":
             subs.append({"name": o["op"][1], "timeout": o["op"][2][2], "call_t": o["call_t"], "ret_t": o["ret_t"], "ret_seq": o["ret_seq"],
-                         "target": o["op"][2][1][1], "fn": None, "created_t": o["call_t"]})
+                         "call_seq": o["call_seq"], "target": o["op"][2][1][1], "fn": None, "created_t": o["call_t"]})
     # base future per submission; delegate-submit-return time (tap below the timeout layer)
     for ev in s.events:
         if ev[3] == "base_submit":
@@ -126,6 +140,8 @@ def evaluate(case):
         if ev[3] == "tap_done" and ev[4]["fn"]:
             tapdone.setdefault(ev[4]["fn"], (ev[1], ev[4]["cancelled"]))
     for sb in subs:
+        if sb["fn"] is not None and sb["target"] is None:
+            sb["target"] = sb["fn"]  # (thread-pool base: no base job to name; the tap's record is keyed by the callable)
         if sb["fn"] is not None and sb["target"] is not None:
             completes.pop(sb["target"], None)
             if sb["fn"] in tapdone:
@@ -144,7 +160,8 @@ def evaluate(case):
     for sb in subs:
         d_lo = sb.get("created_t", sb["call_t"]) + sb["timeout"]
         d_hi = sb["ret_t"] + sb["timeout"]
-        by_timer = [c for c in cancels.get(sb["name"], []) if c["thread"].startswith("TimeoutExecutor")]
+        # (futures are told apart by address: an internal future that died before this one was created may have had the same one)
+        by_timer = [c for c in cancels.get(sb["name"], []) if c["thread"].startswith("TimeoutExecutor") and c["seq"] > sb["call_seq"]]
         t_done = completes.get(sb["target"])
         t_user = user_cancel.get(sb["name"])
         ended = min([x for x in (t_done, t_user) if x is not None] or [None]) if (t_done is not None or t_user is not None) else None
@@ -182,7 +199,7 @@ def account(ctx, case, viols, info, extra=()):
     if info.get("inconclusive"):
         ctx.inconclusive += 1
     cls = ["end:" + info["end"], "preempt:%d" % min(info.get("preemptions", 0), 3), "nt:%s" % info.get("nt"),
-           "kind:%s" % ("f_timeout" if case.get("ft") else "throttled" if case.get("throttled") else "executor")] + list(extra)
+           "kind:%s" % ("f_timeout" if case.get("ft") else "throttled" if case.get("throttled") else case.get("kind") or "executor")] + list(extra)
     ctx.case(case, bool(info.get("nt")), cls, sample={"case": case})
     new = False
     for v in viols:
@@ -199,7 +216,7 @@ def case_strategy():
 
     @st.composite
     def cases(draw):
-        kind = draw(st.sampled_from(["executor", "executor", "throttled", "f_timeout"]))
+        kind = draw(st.sampled_from(["executor", "executor", "throttled", "f_timeout", "retrypool"]))
         n = draw(st.integers(1, 6))
         nthreads = draw(st.integers(1, 3))
         threads = [[] for _ in range(nthreads)]
@@ -217,6 +234,13 @@ def case_strategy():
             if kind == "f_timeout":
                 to = to or default
                 t.append(["expr", f, ["f_timeout", ["src", "a%d" % i], to]])
+            elif kind == "retrypool":
+                # attempts that take (virtual) time and fail, back-off in between: running / pending phases alternate
+                script = []
+                for _ in range(draw(st.integers(0, 2))):
+                    script.append(["vsleep", draw(st.sampled_from([0.1, 0.4, 1.1])), ["raise", "E0"]])
+                script.append(draw(st.sampled_from([["tag"], ["vsleep", 0.3, ["tag"]], ["vsleep", 3.0, ["tag"]]])))
+                t.append(sub(f, to, script))
             else:
                 t.append(sub(f, to))
             horizon = max(horizon, 4.0 + (to or default))
@@ -228,6 +252,8 @@ def case_strategy():
             j = draw(st.integers(0, n - 1))
             if kind == "f_timeout":
                 comp.append(draw(st.sampled_from([["complete", "a%d" % j, "value", j], ["complete", "a%d" % j, "error", "E1"], ["cancel", "f%d" % j]])))
+            elif kind == "retrypool":
+                comp.append(["cancel", "f%d" % j])
             else:
                 comp.append(draw(st.sampled_from([["run", "ex", j], ["run", "ex", j], ["cancel", "f%d" % j], ["complete", "ex.base.j%d" % j, "cancel"]])))
         threads.append(comp)
@@ -236,9 +262,12 @@ def case_strategy():
             for _ in range(n + 2):
                 drain += [["sleep", 0.75], ["runall", "ex"]]
             threads.append(drain)
-        setup = [] if kind == "f_timeout" else [stack(default, draw(st.integers(1, 2)) if kind == "throttled" else None)]
+        if kind == "retrypool":
+            setup = [retry_stack(default, draw(st.sampled_from([0.3, 0.7, 20.0])))]
+        else:
+            setup = [] if kind == "f_timeout" else [stack(default, draw(st.integers(1, 2)) if kind == "throttled" else None)]
         prog = {"setup": setup, "threads": threads, "settle": horizon + 2.0, "final": [["state", f] for f in names]}
-        return {"prog": prog, "default": default, "ft": kind == "f_timeout", "throttled": kind == "throttled",
+        return {"prog": prog, "default": default, "ft": kind == "f_timeout", "throttled": kind == "throttled", "kind": kind,
                 "tape": draw(gen.tapes(8)), "clock": "exact", "max_vtime": 300}
 
     return cases()
